@@ -20,6 +20,7 @@ import (
 	"strings"
 
 	"github.com/mitchellh/copystructure"
+	"github.com/pkg/errors"
 
 	chart "helm.sh/helm/v4/pkg/chart/v2"
 )
@@ -243,8 +244,14 @@ func processImportValues(c *chart.Chart, merge bool) error {
 		for _, riv := range r.ImportValues {
 			switch iv := riv.(type) {
 			case map[string]interface{}:
-				child := iv["child"].(string)
-				parent := iv["parent"].(string)
+				child, ok := iv["child"].(string)
+				if !ok {
+					return errors.Errorf("invalid import-values in dependency %q: child must be a string", r.Name)
+				}
+				parent, ok := iv["parent"].(string)
+				if !ok {
+					return errors.Errorf("invalid import-values in dependency %q: parent must be a string", r.Name)
+				}
 
 				outiv = append(outiv, map[string]string{
 					"child":  child,
